@@ -335,6 +335,16 @@ def scenarios(tier):
                               results=res, dup_kinds=[kind],
                               max_dups=1 if quick else 2, **kw)
             jobs.append((scn, 0 if quick else 1, 40 if quick else 1200, 1))
+    # the duplicate overlaps with the handling of the original: the first
+    # delivery has only read so far when the second one is handled
+    for j in list(jobs):
+        scn = j[0]
+        if scn.name.startswith(('seq2/', 'join_two_starts/', 'items2/',
+                                'subwf/', 'retry1/')) and (
+                'dup-on_action_complete' in scn.name or
+                'dup-start_task' in scn.name):
+            jobs.append((common.variant(scn, '/overlap', rp=True),
+                         0 if quick else 1, 40 if quick else 1200, 1))
     return jobs
 
 
